@@ -6,6 +6,7 @@ import (
 	"context"
 	"encoding/json"
 	"fmt"
+	"os"
 	"sort"
 	"time"
 
@@ -76,7 +77,20 @@ func history(i int, seed int64, extra []string) any {
 	}
 	n := 20 + rnd.Intn(25)
 	shapes := []string{"S3-leaf-insert", "S4-split", "S6-updates", "S7-removes", "S8-mixed", "S9-multistore", "S5-rootsplit", "S2-emptied-root"}
+	walkEach := os.Getenv("VERIF_HIST_WALK_EACH") != "" // development aid: walk the disk after every transaction
+	seenOrphans := 0
 	for k := 0; k < n; k++ {
+		if walkEach && k > 0 {
+			w := walk.Walk(dir)
+			tot := 0
+			for _, sw := range w.By {
+				tot += len(sw.OrphanHandles) + len(sw.OrphanBlobs)
+			}
+			if tot != seenOrphans {
+				res.Log = append(res.Log, fmt.Sprintf("   >>> before txn %d: orphan handles+blobs went from %d to %d", k, seenOrphans, tot))
+				seenOrphans = tot
+			}
+		}
 		shape := shapes[rnd.Intn(len(shapes))]
 		prog := txn.Gen(rnd, shape, model, specs, fmt.Sprintf("h%d", k))
 		if len(prog.Ops) == 0 {
